@@ -121,7 +121,7 @@ def run(ctx):
         for i in range(1, b.argc + 1):
             TYPES[(b.key, i)] = b.local_ty(i)
     rs = roots(ctx, 'R-C16-1')
-    found, bodies = panics.check_panic_sites(ctx, 'R-C16-1', rs, floor=15, reviewed=dict(REVIEWED, **msm.REVIEW_PLACEHOLDER))
+    found, bodies = panics.check_panic_sites(ctx, 'R-C16-1', rs, floor=6, reviewed=dict(REVIEWED, **msm.REVIEW_PLACEHOLDER))
     keys = {b.key for b in bodies}
 
     # R-C16-2 recursion
@@ -155,7 +155,7 @@ def run(ctx):
     # the same iterator): the positive control counts both forms
     consumers = ('for_each', 'try_for_each', 'fold', 'try_fold', 'sum', 'any', 'all', 'collect', 'extend', 'unzip', 'count', 'last')
     niter = sum(1 for b in bodies for bb, t in ctx.calls(b) if callee_decl(t).startswith('std::iter::') and callee_decl(t).split('::')[-1] in consumers)
-    rep.floor('R-C16-3', 'iteration sites (loops + iterator consumers) in reachable set', nloops + niter, 30)
+    rep.floor('R-C16-3', 'iteration sites (loops + iterator consumers) in reachable set', nloops + niter, 15)
     rep.note('R-C16-3: %d MIR loops, %d iterator-consumer calls' % (nloops, niter))
 
     # R-C16-4 allocation sizes
@@ -187,7 +187,7 @@ def run(ctx):
             key = 'R-C16-4/%s/%s/%s' % (b.path, d.split('::')[-1], canon(size)[:100])
             rep.check(not bad, 'R-C16-4', key, 'allocation size %s derives from lengths / constants / bounded parameters' % short(size, 140),
                       'allocation size depends on input data values: %s' % short(size, 200), ctx.where(b, bb))
-    rep.floor('R-C16-4', 'allocation sites', nalloc, 10)
+    rep.floor('R-C16-4', 'allocation sites', nalloc, 5)
 
     # R-C16-5 MSM preconditions
     msm.check_verify_msm(ctx, 'R-C16-5')
